@@ -648,10 +648,10 @@ func (vm *VM) startGoroutine() bool {
 	nvm := create(vm.env)
 	vm.pc++
 	off := vm.fn.Body[vm.pc]
-	copy(nvm.regs.int, vm.regs.int[vm.fp[0]+Addr(off.Op):vm.fp[0]+127])
-	copy(nvm.regs.float, vm.regs.float[vm.fp[1]+Addr(off.A):vm.fp[1]+127])
-	copy(nvm.regs.string, vm.regs.string[vm.fp[2]+Addr(off.B):vm.fp[2]+127])
-	copy(nvm.regs.general, vm.regs.general[vm.fp[3]+Addr(off.C):vm.fp[3]+127])
+	copy(nvm.regs.int, vm.regs.int[vm.fp[0]+Addr(off.Op):])
+	copy(nvm.regs.float, vm.regs.float[vm.fp[1]+Addr(off.A):])
+	copy(nvm.regs.string, vm.regs.string[vm.fp[2]+Addr(off.B):])
+	copy(nvm.regs.general, vm.regs.general[vm.fp[3]+Addr(off.C):])
 	go nvm.runFunc(fn, vars)
 	vm.pc++
 	return false
